@@ -29,6 +29,26 @@ CHECKS = {
          "Random rule histories and file-state tables written through the real writers are read back by a fresh object and compared; every strict prefix must be rejected; every single bit flip of small instances and random byte strings must yield an error or a well-formed value, never a panic.",
          "Equality on decoded values. Allocation bounds are not measured (see DESIGN changelog).",
          "property-based testing: round-trip, prefix and bit-flip fault injection on serialised state", "2 C16"),
+ "C02": ("exploration",
+         "The C01 histories are re-run with a monitor that keeps the harness's own record of successful executions (canonical rule x source contents -> outputs) and audits the cache itself; from ruler's call log it asserts that no command runs twice per build, that every rule with a live must-not-run obligation stays silent, and that an immediately repeated successful build runs nothing and touches nothing outside the ruler directory.",
+         "Obligations are derived only from the harness's own record and own cache audit (as the property's quantifier demands). Distinct clock; deterministic commands.",
+         "property-based testing: stateful histories with a call-log monitor and model-derived must-not-run obligations", "2 C02"),
+ "C07": ("exploration",
+         "After every generated build or clean (successful or failing, with tampered targets and failing commands) every cache entry's name is recomputed with the harness's own SHA-256/base-62 from the entry's bytes; targets renamed out of the cache must hold the content the entry name encodes.",
+         "Distinct clock as the property assumes. Crash instants are audited in C11, schedules in C06.",
+         "property-based testing: invariant over generated histories (content-address audit with an independent hash)", "2 C07"),
+ "C08": ("exploration",
+         "For every generated invocation the set of contents at ever-declared target paths and in the cache beforehand must be a subset of the set afterwards, and from the call log every rename ruler issues must have an absent or byte-identical destination and ruler must create no file outside its directory.",
+         "Commands are atomic and deterministic; a failing command writes nothing. Crash instants are covered by C11.",
+         "property-based testing: snapshot-subset invariant plus call-log step rule over generated histories", "2 C08"),
+ "C09": ("exploration",
+         "Workspaces with bystander files, two rules files and out-of-scope rules; every mutating call ruler makes outside commands must name an in-scope target (harness's own ancestor closure) or a path in the ruler directory, and all other files keep content, mtime and permissions, for build and clean with and without goals.",
+         "Command writes are excluded by the in-command flag of the instrumented file system.",
+         "property-based testing: call-log audit and before/after snapshot comparison over generated histories", "2 C09"),
+ "C20": ("exploration",
+         "With a recording Printer, every generated build's status lines are compared with what the call log shows happened to each target (command ran / renamed in from cache / untouched); failed, cancelled and out-of-scope rules must get no line and the number of reported failures must equal failing rules + missing leaves of the reference evaluation.",
+         "Banner text compared after trimming; colours ignored. Scheduled scenarios are added by the C03-C06 engine.",
+         "property-based testing: printed output vs call-log oracle over generated histories", "2 C20"),
 }
 
 NOT_YET = {}
